@@ -103,7 +103,7 @@ def gen_profile_cases(rng, n):
 
 def correspond(ctx):
     rng, tier = ctx["rng"], ctx["tier"]
-    n = 12 if tier == "quick" else 150
+    n = 12 if tier == "quick" else 600
     c1, m1 = gen_scalar_cases(rng, n)
     c2, m2 = gen_profile_cases(rng, n * 2)
     cases, meta = c1 + c2, m1 + m2
